@@ -475,6 +475,9 @@ class FnSplicer:
             elif len(hits) != tr_expected:
                 raise ExtractError('lost anchor: `%s` occurs %d times in %s' % (pattern, len(hits), tag))
             for h in hits:
+                # edits of earlier rules (strip-await ...) that lie inside the replaced text concern text that no longer exists
+                ra, rb = toks[h].start, toks[h + len(want) - 1].end
+                self.segs.edits = [e for e in self.segs.edits if not (ra <= e[0] and e[1] <= rb and (e[0], e[1]) != (ra, rb) and e[2] == 'rw')]
                 self.segs.rewrite(toks[h].start, toks[h + len(want) - 1].end, replacement, 'tokens-to-helper')
                 tr_excl.append((h, h + len(want) - 1))   # loops and closures inside the replaced text no longer exist
                 self.counts['tokens-to-helper'] = self.counts.get('tokens-to-helper', 0) + 1
